@@ -143,10 +143,15 @@ func Float(t *rapid.T) string {
 		return pick(t, floats, "fval")
 	}
 	sign := pick(t, []string{"", "", "-", "+"}, "fsign")
+	if vcase.OneIn(t, 40, "fverylong") {
+		// more than 800 integer digits, a decimal point, and an exponent that brings the value back
+		n := rapid.SampledFrom([]int{799, 800, 801, 805, 850}).Draw(t, "flonglen")
+		return sign + pick(t, []string{"1", "7", "12"}, "flead") + strings.Repeat(pick(t, []string{"0", "3"}, "ffill"), n) + pick(t, []string{".5", ".0", "."}, "ffrac") + "e-" + strconv.Itoa(n+rapid.IntRange(-3, 3).Draw(t, "fback"))
+	}
 	switch rapid.IntRange(0, 4).Draw(t, "fform") {
 	case 0:
 		m := rapid.Int64Range(1, 999999999999999).Draw(t, "fmant")
-		return sign + strconv.FormatInt(m, 10) + pick(t, []string{"e", "E", "e+"}, "fe") + strconv.Itoa(rapid.IntRange(15, 45).Draw(t, "fexp"))
+		return sign + strconv.FormatInt(m, 10) + pick(t, []string{"e", "E", "e+"}, "fe") + strconv.Itoa(rapid.SampledFrom([]int{1, -1}).Draw(t, "fexpsign")*rapid.IntRange(15, 45).Draw(t, "fexp"))
 	case 1:
 		u := rapid.Uint64Range(1<<53, 1<<63+4096).Draw(t, "fbigint")
 		if rapid.Bool().Draw(t, "fnear63") {
